@@ -29,10 +29,12 @@ REQUIRED = ['mon.foreign_survives', 'mon.delete_oserror', 'mon.wrongkind_typeerr
             'mon.overwrite_false_unchanged', 'mon.overwrite_true_keeps_foreign']
 MIN_NONTRIVIAL = {'quick': 150, 'thorough': 150}
 
-FOREIGN = ['file', 'nesteddir', 'symlink_file', 'symlink_dir', 'dir_named_metadata', 'file_in_dir_named_like_darr']
+FOREIGN = ['file', 'nesteddir', 'symlink_file', 'symlink_dir', 'dir_named_metadata', 'file_in_dir_named_like_darr',
+           'file_named_like_other_kind']
 FORMS = ['object', 'str', 'Path']
 CREATORS = ['asarray', 'create_array', 'asraggedarray', 'create_raggedarray', 'Array.copy', 'RaggedArray.copy',
-            'archive']
+            'archive', 'asarray_failing_iter', 'asarray_failing_cast', 'create_array_failing_fillfunc',
+            'asraggedarray_failing_iter']
 OCCUPANTS = ['array_md', 'ragged', 'larger', 'smaller', 'plainfile', 'foreigndir']
 
 
@@ -76,6 +78,14 @@ def add_foreign(where, outside, fk):
     elif fk == 'dir_named_metadata':
         (where / 'metadata.json').mkdir()
         (where / 'metadata.json' / 'inner.txt').write_text('x')
+    elif fk == 'file_named_like_other_kind':
+        # a user file that carries a name Darr uses in the *other* kind of directory
+        if (where / 'values').is_dir():
+            (where / 'arrayvalues.bin').write_bytes(b'not darr data')
+        else:
+            (where / 'values').mkdir()
+            (where / 'values' / 'mine.txt').write_text('user')
+            (where / 'indices').write_text('a file, not a directory')
     elif fk == 'file_in_dir_named_like_darr':
         (where / 'arrayvalues.bin.bak').write_bytes(b'backup')
         (where / 'README.txt~').write_bytes(b'editor backup')
@@ -87,7 +97,8 @@ def foreign_view(snap, own):
 
 
 ARRAY_OWN = {'arrayvalues.bin', 'arraydescription.json', 'README.txt', 'metadata.json'}
-RAGGED_OWN = ARRAY_OWN | {'values', 'indices'} | {f'{s}/{f}' for s in ('values', 'indices') for f in ARRAY_OWN}
+RAGGED_TOP = {'arraydescription.json', 'README.txt', 'metadata.json', 'values', 'indices'}
+RAGGED_OWN = RAGGED_TOP | {f'{s}/{f}' for s in ('values', 'indices') for f in ARRAY_OWN}
 
 
 def run_case(case, env):
@@ -126,6 +137,9 @@ def run_delete(case, env, res, parent, outside):
         shutil.rmtree(p)
         h = mkarray(D, p) if kind == 'Array' else mkragged(D, p)
     own = ARRAY_OWN if kind == 'Array' else RAGGED_OWN
+    if fk == 'file_named_like_other_kind':
+        own = ARRAY_OWN if kind == 'Array' else RAGGED_OWN   # 'values'/'indices' in an Array dir and a top-level
+        # 'arrayvalues.bin' in a ragged dir are foreign
     if fk:
         where = p if case['loc'] == 'top' else p / case['loc']
         add_foreign(where, outside, fk)
@@ -237,7 +251,7 @@ def run_create(case, env, res, parent, outside):
         add_foreign(p, outside, 'symlink_dir')
         if (p / 'values').is_dir():
             add_foreign(p / 'values', outside, 'file')
-    own = RAGGED_OWN
+    own = ARRAY_OWN | RAGGED_OWN
     before_parent, before_o = snapshot(parent), snapshot(outside)
     before_t = snapshot(p)
     raised = None
@@ -250,6 +264,26 @@ def run_create(case, env, res, parent, outside):
             D.asraggedarray(p, [[1.5], [2.5, 3.5]], overwrite=ow)
         elif creator == 'create_raggedarray':
             D.create_raggedarray(p, atom=(2,), dtype='int16', overwrite=ow)
+        elif creator == 'asarray_failing_iter':
+            def chunks():
+                yield np.arange(4, dtype='int32')
+                yield np.arange(4, dtype='int32')
+                raise RuntimeError('source failed')
+            D.asarray(p, chunks(), overwrite=ow)
+        elif creator == 'asarray_failing_cast':
+            D.asarray(p, (c for c in [np.arange(3.0), np.arange(2.0), ['not', 'numbers']]), overwrite=ow)
+        elif creator == 'create_array_failing_fillfunc':
+            def ff(i):
+                if i.max() > 3:
+                    raise RuntimeError('fillfunc failed')
+                return i
+            D.create_array(p, shape=(9,), fillfunc=ff, chunklen=2, overwrite=ow)
+        elif creator == 'asraggedarray_failing_iter':
+            def items():
+                yield [1.0, 2.0]
+                yield [3.0]
+                raise RuntimeError('source failed')
+            D.asraggedarray(p, items(), overwrite=ow)
         elif creator == 'Array.copy':
             src.copy(p, overwrite=ow)
         elif creator == 'RaggedArray.copy':
